@@ -31,9 +31,16 @@ for d in sorted(glob.glob("/verif/seeded/*")):
         continue
     first = verdict(m.get("verif_run", {}).get("results", {}))
     cur = ""
-    rp = os.path.join(d, "rerun.json")
-    if os.path.exists(rp):
+    # newest of rerun.json / rerun_<branch>.json (verdict files have a "results" key; replay copies do not)
+    cands = [f for f in glob.glob(os.path.join(d, "rerun*.json")) if "_replay_" not in os.path.basename(f)]
+    merged, commits = {}, []
+    for rp in sorted(cands, key=os.path.getmtime):
         r = json.load(open(rp))
+        if "results" in r:
+            merged.update(r["results"])
+            commits.append(r.get("verif_commit", "?"))
+    if merged:
+        r = {"results": merged, "verif_commit": commits[-1]}
         cur = verdict(r.get("results", {})) + f" (@{r.get('verif_commit', '?')})"
-    needs = " ".join(m.get("needs_to_manifest", "").split())[:170]
+    needs = " ".join(m.get("needs_to_manifest", "").split())[:170].replace("|", "/")
     print(f"| {name} | {needs} | {first} | {cur} |")
